@@ -902,7 +902,7 @@ pub fn eval_step(p: &mut Project, cfg: &ChainCfg, seed: u64, step: usize, edits:
         // ------------------------------------------------ twins
         let mut trng = Rng::derive(seed, &[4, step as u64]);
         let mut twin_started_differently = false;
-        if cfg.twins && rep.errors.is_empty() && rep.history_out.is_some() && rep.violations.is_empty() {
+        if cfg.twins && rep.errors.is_empty() && rep.history_out.is_some() {
             let interrupted = rep.interrupted();
             let hout = rep.history_out.as_ref().unwrap();
             // failure-free twin from the same start: other declaration order, schedule, parallelism, ack timing
@@ -911,7 +911,7 @@ pub fn eval_step(p: &mut Project, cfg: &ChainCfg, seed: u64, step: usize, edits:
             for v in &u.violations {
                 all_viols.push((v.clone(), "twin"));
             }
-            if u.violations.is_empty() && u.history_out.is_some() {
+            if u.errors.is_empty() && u.history_out.is_some() {
                 let ustarted = u.started_set();
                 if !interrupted {
                     // ---- C14
@@ -936,7 +936,7 @@ pub fn eval_step(p: &mut Project, cfg: &ChainCfg, seed: u64, step: usize, edits:
                         for x in &v.violations {
                             all_viols.push((x.clone(), "nextjob-twin"));
                         }
-                        if v.violations.is_empty() && v.history_out.is_some() {
+                        if v.errors.is_empty() && v.history_out.is_some() {
                             if v.started_set() != started {
                                 all_viols.push((mk("C14", "executed-sets-differ", "nextjob".into(), format!("executed {:?} vs next_job_ready_to_run-driven twin {:?}", started, v.started_set())), ""));
                             }
@@ -983,7 +983,7 @@ pub fn eval_step(p: &mut Project, cfg: &ChainCfg, seed: u64, step: usize, edits:
                     for v in &r2.violations {
                         all_viols.push((v.clone(), "resume"));
                     }
-                    if r2.violations.is_empty() && r2.history_out.is_some() {
+                    if r2.errors.is_empty() && r2.history_out.is_some() {
                         for j in &r2.started {
                             if !ustarted.contains(j) {
                                 all_viols.push((mk("C09", "resume-executed-extra-job", format!("{}:{}", kind_char(p.g.kind(j)), rep.disposition(j)), format!("resume executed {} (was {} in the interrupted run) which the uninterrupted run {:?} did not", j, rep.disposition(j), ustarted)), ""));
@@ -1020,7 +1020,7 @@ pub fn eval_step(p: &mut Project, cfg: &ChainCfg, seed: u64, step: usize, edits:
                 for v in &r2.violations {
                     all_viols.push((v.clone(), "rerun"));
                 }
-                if r2.violations.is_empty() && r2.history_out.is_some() {
+                if r2.errors.is_empty() && r2.history_out.is_some() {
                     for j in &r2.started {
                         match p.g.kind(j) {
                             JobKind::Output => all_viols.push((mk("C12", "rerun-executed-output", "".into(), format!("re-evaluation of the unchanged project executed Output {}", j)), "")),
@@ -1228,7 +1228,6 @@ pub fn eval_step(p: &mut Project, cfg: &ChainCfg, seed: u64, step: usize, edits:
                     println!("seed {} step {} {} {} [{}] {}", seed, step, v.prop, v.sig, tag, v.detail.chars().take(300).collect::<String>());
                 }
             }
-            return false;
         }
         match rep.history_out {
             Some(h) => {
